@@ -262,7 +262,9 @@ class BeautifulSoupHTMLParser(HTMLParser, DetectsXMLParsedAsHTML):
                     continue
                 try:
                     data = bytearray([real_name]).decode(encoding)
-                except UnicodeDecodeError:
+                except UnicodeError:
+                    # UnicodeDecodeError, or the plain UnicodeError
+                    # some codecs (e.g. punycode) raise instead.
                     pass
         if not data:
             try:
